@@ -6,7 +6,7 @@ import loadcmp
 from gen_script import Gen
 
 PROP = "C18"
-NEEDS = ["model/Lexer.v", "model/Parser.v", "model/Loader.v", "proofs/LexerP.v", "proofs/LayoutP.v", "extract/Extract.v"]
+NEEDS = ["model/Lexer.v", "model/Parser.v", "model/Loader.v", "proofs/LexerP.v", "proofs/LayoutP.v", "proofs/SpaceP.v", "extract/Extract.v"]
 
 TOKEN_RE = re.compile(r'"[^"\n]*"|\*\*|[A-Za-z_][A-Za-z_0-9.]*|\d[\d.]*(?:[eE][+-]?\d+)?[jJ]?|\S')
 
